@@ -222,6 +222,11 @@ func (ex *Exec) check(st *State, fr *Frame, class, label string, goal Term, prop
 		name = fmt.Sprintf("%s/%s#%s@%s", funcKey(ex.top), class, label, shortFn(fr.fn))
 	}
 	if !ex.active(props) {
+		// obligations of other properties are discharged in those properties'
+		// runs; here they are part of the context (assumed, not reported)
+		if goal.B != 1 && class != "cover" {
+			st.assume(goal)
+		}
 		return
 	}
 	if len(props) == 0 && ex.prop != "" {
@@ -353,9 +358,6 @@ func (ex *Exec) runBlock(st *State, fr *Frame, b *ssa.BasicBlock, prev *ssa.Basi
 			env := ex.invEnv(st, fr)
 			env.loopHead = b
 			for _, inv := range spec.Invariants {
-				if !ex.active(inv.Props) {
-					continue
-				}
 				t, err := ex.evalSpecBool(inv.Expr, env)
 				if err != nil {
 					ex.errors = append(ex.errors, fmt.Sprintf("%s: loop %d invariant %s: %v", fr.fn, n, inv.Label, err))
@@ -414,9 +416,6 @@ func (ex *Exec) checkInvariants(st *State, fr *Frame, head *ssa.BasicBlock, n in
 	env := ex.invEnv(st, fr)
 	env.loopHead = head
 	for _, inv := range spec.Invariants {
-		if !ex.active(inv.Props) {
-			continue
-		}
 		t, err := ex.evalSpecBool(inv.Expr, env)
 		if err != nil {
 			ex.errors = append(ex.errors, fmt.Sprintf("%s: loop %d invariant %s: %v", fr.fn, n, inv.Label, err))
@@ -915,6 +914,9 @@ func (ex *Exec) loadGlobal(st *State, g *ssa.Global) Val {
 				env := &Env{ex: ex, st: st, vars: map[string]Val{"it": v}}
 				t, err := ex.evalSpecBool(f, env)
 				if err != nil {
+					if et.Underlying() != nil && sortOf(et) != SortSlice && sortOf(et) != SortBytes {
+						continue // literal facts apply to string / []byte globals only
+					}
 					ex.errors = append(ex.errors, fmt.Sprintf("global fact for %s: %v", name, err))
 					continue
 				}
